@@ -8,6 +8,7 @@ open MakoModel.Generated.ModFile
 theorem staleCmp_is_lt : staleCmp = .lt := by decide
 theorem missingCheck_on : missingCheck = true := by decide
 theorem magicRecheck_on : magicRecheck = true := by decide
+theorem fileRecheck_on : fileRecheck = true := by decide
 theorem hookArgs_ok : hookArgsOk = true := by decide
 theorem writerOps_renames : WOp.rename ∈ writerOps := by decide
 theorem tmpInTargetDir_on : tmpInTargetDir = true := by decide
@@ -132,7 +133,8 @@ theorem group_spec (w : World) (new : Content) (fates : List Fate) (budget : Opt
 
 /-- `f` is a complete module generated now from the current source by the current generator -/
 def IsNew (w : World) (f : File) : Prop :=
-  f.mtime = w.clock ∧ f.content.src = w.srcVer ∧ f.content.magic = magicNumber ∧ f.content.complete = true
+  f.mtime = w.clock ∧ f.content.src = w.srcVer ∧ f.content.magic = magicNumber ∧ f.content.complete = true ∧
+  f.content.file = w.fileId
 
 theorem newContent_isNew (w : World) (sz : Nat) : IsNew w ⟨newContent w sz, w.clock⟩ := by
   simp [IsNew, newContent]
@@ -202,7 +204,7 @@ theorem construct_good (w : World) (p : Plan) (hg : p.guard) (h : Good w.fs) :
   intro f hf
   rcases construct_fs w p hg with h1 | ⟨f', hf', hn⟩
   · exact h f (by rw [← h1]; exact hf)
-  · rw [hf'] at hf; cases hf; exact hn.2.2.2
+  · rw [hf'] at hf; cases hf; exact hn.2.2.2.1
 
 /-- the invariant of histories -/
 theorem stepH_good (w : World) (op : HOp) (hop : op.ok) (h : Good w.fs) : Good (stepH w op).fs := by
@@ -260,13 +262,13 @@ theorem loadMod_fresh (w : World) (f : File) (hf : w.fs .mod = some f) (hc : f.c
 
 theorem phase2_reuse (wr : Writer) (w1 : World) (p : Plan) (left : Option Nat) (acts : List Act) (n : Nat)
     (calls : List (Content × P)) (c : Content) (pyc1 : Option (Nat × Nat × Content))
-    (hl : loadMod w1 = (some c, pyc1)) (hm : c.magic = magicNumber) :
+    (hl : loadMod w1 = (some c, pyc1)) (hm : c.magic = magicNumber) (hfile : c.file = w1.fileId) :
     phase2 wr w1 p left acts n calls = ⟨{ w1 with pyc := pyc1 }, .served c, acts, n, calls⟩ := by
-  simp [phase2, hl, hm]
+  simp [phase2, hl, needsRegen, hm, hfile]
 
 theorem phase2_rewrite (wr : Writer) (w1 : World) (p : Plan) (left : Option Nat) (acts : List Act) (n : Nat)
     (calls : List (Content × P)) (c c2 : Content) (pyc1 pyc2 : Option (Nat × Nat × Content))
-    (hl : loadMod w1 = (some c, pyc1)) (hm : c.magic ≠ magicNumber)
+    (hl : loadMod w1 = (some c, pyc1)) (hm : c.magic ≠ magicNumber ∨ c.file ≠ w1.fileId)
     (hd : (wr { w1 with pyc := pyc1 } (newContent { w1 with pyc := pyc1 } p.size2) p.fates2 left).status = .done)
     (hl2 : loadMod (afterGroup { w1 with pyc := pyc1 }
       (wr { w1 with pyc := pyc1 } (newContent { w1 with pyc := pyc1 } p.size2) p.fates2 left)) = (some c2, pyc2)) :
@@ -276,7 +278,9 @@ theorem phase2_rewrite (wr : Writer) (w1 : World) (p : Plan) (left : Option Nat)
         .served c2,
         acts ++ (wr { w1 with pyc := pyc1 } (newContent { w1 with pyc := pyc1 } p.size2) p.fates2 left).acts, n + 1,
         calls ++ (wr { w1 with pyc := pyc1 } (newContent { w1 with pyc := pyc1 } p.size2) p.fates2 left).calls⟩ := by
-  simp [phase2, hl, hm, magicRecheck_on, hd, hl2]
+  have hr : needsRegen w1 c = true := by
+    rcases hm with hm | hm <;> simp [needsRegen, magicRecheck_on, fileRecheck_on, hm]
+  simp [phase2, hl, hr, hd, hl2]
 
 def Plan.noFault (p : Plan) : Prop := p.fates1 = [] ∧ p.fates2 = [] ∧ p.crash = none
 
@@ -318,12 +322,13 @@ theorem construct_due (w : World) (p : Plan) (hp : p.noFault) (hfresh : dropsByt
     unfold construct
     simp only [hd, if_true, h1, h3, gd, gl]
     simp [defaultWriter]
-  rw [hc, phase2_reuse _ _ _ _ _ _ _ _ _ hl (by simp [newContent])]
+  rw [hc, phase2_reuse _ _ _ _ _ _ _ _ _ hl (by simp [newContent]) (by simp [newContent, afterGroup])]
   exact ⟨rfl, rfl, by simpa [afterGroup] using gm⟩
 
 /-- case B: fresh file, right magic number: reused, nothing is touched -/
 theorem construct_reuse (w : World) (p : Plan) (hgood : Good w.fs) (hcoh : PycCoherent w)
-    (hd : isDue w = false) (f : File) (hf : w.fs .mod = some f) (hm : f.content.magic = magicNumber) :
+    (hd : isDue w = false) (f : File) (hf : w.fs .mod = some f) (hm : f.content.magic = magicNumber)
+    (hfile : f.content.file = w.fileId) :
     (construct defaultWriter w p).writes = 0 ∧
     (construct defaultWriter w p).res = .served f.content ∧
     (construct defaultWriter w p).world.fs = w.fs ∧
@@ -331,13 +336,13 @@ theorem construct_reuse (w : World) (p : Plan) (hgood : Good w.fs) (hcoh : PycCo
   obtain ⟨pyc1, hl, _⟩ := loadMod_fresh w f hf (hgood f hf) (fun m s c hp h1 h2 => hcoh m s c f hp hf h1 h2)
   have hc : construct defaultWriter w p = phase2 defaultWriter w p p.crash [] 0 [] := by
     unfold construct; simp [hd]
-  rw [hc, phase2_reuse _ _ _ _ _ _ _ _ _ hl hm]
+  rw [hc, phase2_reuse _ _ _ _ _ _ _ _ _ hl hm hfile]
   exact ⟨rfl, rfl, rfl, rfl⟩
 
 /-- case C: fresh file, other magic number: rewritten after the first load, and loaded again -/
 theorem construct_magic (w : World) (p : Plan) (hp : p.noFault) (hgood : Good w.fs) (hcoh : PycCoherent w)
     (hfresh : dropsBytecode = true ∨ PycFresh w p) (hd : isDue w = false) (f : File) (hf : w.fs .mod = some f)
-    (hm : f.content.magic ≠ magicNumber) :
+    (hm : f.content.magic ≠ magicNumber ∨ f.content.file ≠ w.fileId) :
     (construct defaultWriter w p).writes = 1 ∧
     (construct defaultWriter w p).res = .served (newContent w p.size2) ∧
     (construct defaultWriter w p).world.fs .mod = some ⟨newContent w p.size2, w.clock⟩ := by
